@@ -38,6 +38,7 @@ ASSUMPTIONS = ["no repository / include URLs (they would need the network)",
                "uncertainty is compared by text (the XML form is text)"]
 REQUIRED_MONITORS = ["loadable", "content", "logged", "source", "file"]
 
+REPO_TEXTS = ["local/terms.xml", "terms", "../shared/t.xml", "/abs/path/terms.xml", "C:\\terms.xml"]
 WORDS = ["alpha", "beta", "x", "rec", "stim", "n1", "v 2", "ä", u"cafe\u0301", u"\u2126", u"\u212bm"]
 DTYPES = ["string", "int", "float", "text", "boolean", None, None]
 
@@ -57,9 +58,9 @@ def gen_doc(rng, hostile_values=0.15, comments=False):
 
     def vtext(dtype):
         if dtype == "int":
-            return str(rng.randrange(-50, 50))
+            return str(rng.choice([0, 0, rng.randrange(-50, 50)]))
         if dtype == "float":
-            return repr(rng.choice([1.5, -2.25, 0.1, 3.0, 1e-5]))
+            return repr(rng.choice([1.5, -2.25, 0.1, 3.0, 1e-5, 0.0]))
         if dtype == "boolean":
             return rng.choice(["true", "False", "1", "0"])
         if rng.random() < hostile_values:
@@ -100,7 +101,7 @@ def gen_doc(rng, hostile_values=0.15, comments=False):
             for v in vals[1:]:
                 if "type" in v:
                     v["type"] = "binary"
-        p = {"name": name, "values": vals, "type_tag": type_tag, "id": ident(),
+        p = {"name": name, "values": vals, "type_tag": type_tag, "id": ident(), "native": rng.random() < 0.3,
              "definition": "prop def" if rng.random() < 0.2 else None,
              "dependency": "other" if rng.random() < 0.15 else None, "unsupported": []}
         if p["dependency"]:
@@ -130,6 +131,8 @@ def gen_doc(rng, hostile_values=0.15, comments=False):
              "reference": "sec ref" if rng.random() < 0.2 else None, "unsupported": [], "properties": [], "sections": []}
         if rng.random() < 0.12:
             s["unsupported"].append((rng.choice(v1map.UNSUPPORTED_SEC), "gone"))
+        if rng.random() < 0.06:
+            s["repository"] = rng.choice(REPO_TEXTS)      # no URL: nothing is fetched, the text is kept
         if comments and rng.random() < 0.2:
             s["comment"] = "sec comment"
         for n in names(rng.choice([0, 1, 2, 3]), ["p", "q", "prop"]):
@@ -146,6 +149,8 @@ def gen_doc(rng, hostile_values=0.15, comments=False):
          "date": "2019-05-06" if rng.random() < 0.4 else None, "unsupported": [], "sections": []}
     if rng.random() < 0.15:
         d["unsupported"].append((rng.choice(v1map.UNSUPPORTED_DOC), "gone"))
+    if rng.random() < 0.1:
+        d["repository"] = rng.choice(REPO_TEXTS)
     for n in names(rng.choice([1, 2, 3]), ["sec", "top"]):
         d["sections"].append(sec(n, rng.choice([0, 1, 2])))
     if rng.random() < 0.15:
@@ -289,6 +294,16 @@ def run_case(case, ctx, sdir):
                     rec.violation("logged/unnamed-property-not-logged", fmt, case)
             elif tag not in log:
                 rec.violation("logged/%s-not-logged" % what, "%s: %r missing in %r" % (fmt, tag, log[:200]), case)
+        # every dropped item has its own entry: as many entries mention a tag as items with that tag were dropped
+        from collections import Counter
+        for (what, tag), n_dropped in Counter(dropped).items():
+            if what == "unnamed-property":
+                n_logged = sum(1 for line in conv.conversion_log if "without name" in line or "Omitted Property" in line)
+            else:
+                n_logged = sum(1 for line in conv.conversion_log if tag in line)
+            if 0 < n_logged < n_dropped:
+                rec.violation("logged/%s-logged-fewer-times-than-dropped" % what, "%s: %r dropped %d times, %d log entries" % (
+                    fmt, tag, n_dropped, n_logged), case)
         for (path, field), cands in alts.items():
             if "already exported" not in log and field != "dtype":
                 rec.violation("logged/conflicting-value-attribute-not-logged", "%s %s" % (path, field), case)
